@@ -90,6 +90,62 @@ def json_plain(v):
     return False
 
 
+def compare_func_cases(ctx):
+    """deltas with moved items (records matched by an id through iterable_compare_func): the reloaded delta must carry an
+    equal payload and behave like the original on every base"""
+    from deepdiff import DeepDiff, Delta
+    from deepdiff.helper import CannotCompare
+
+    def by_id(x, y, level=None):
+        try:
+            return x['id'] == y['id']
+        except Exception:
+            raise CannotCompare() from None
+    n = 60 if ctx.thorough() else 14
+    for _ in range(n):
+        k = ctx.rng.randint(2, 5)
+        t1 = [{'id': i, 'val': ctx.rng.randint(0, 3)} for i in range(k)]
+        t2 = copy.deepcopy(t1)
+        ctx.rng.shuffle(t2)
+        for r in t2:
+            if ctx.rng.random() < 0.4:
+                r['val'] = ctx.rng.randint(4, 9)
+        if ctx.rng.random() < 0.5:
+            t2.insert(ctx.rng.randint(0, len(t2)), {'id': 100 + ctx.rng.randint(0, 9), 'val': 0})
+        if ctx.rng.random() < 0.4 and len(t2) > 1:
+            del t2[ctx.rng.randrange(len(t2))]
+        for io in (False, True):
+            for bidir in (False, True):
+                case = {'t1': repr(t1), 't2': repr(t2), 'mode': 'iterable_compare_func' + ('+ignore_order' if io else ''), 'bidirectional': bidir, 'always_include_values': False}
+                ctx.evaluations += 1
+                try:
+                    diff = DeepDiff(t1, t2, iterable_compare_func=by_id, ignore_order=io, report_repetition=io)
+                    mk = lambda: Delta(diff, bidirectional=bidir)
+                    ref = pkl.symb(mk().diff)
+                    b = mk().dumps()
+                except Exception as e:
+                    ctx.count('delta_build_failed:' + type(e).__name__); continue
+                ctx.count('mode:compare_func')
+                for cat in mk().diff:
+                    ctx.count('cat:' + cat)
+                if ref:
+                    ctx.nontriv((ref, 'compare_func', io, bidir))
+                try:
+                    if pkl.symb(Delta(b, bidirectional=bidir).diff) != ref:
+                        ctx.violate(dict(case, channel='bytes'), 'reloaded payload differs from the original payload'); continue
+                except Exception as e:
+                    ctx.violate(dict(case, channel='bytes'), 'reload raised %s' % type(e).__name__); continue
+                other = copy.deepcopy(t1)
+                if other:
+                    other[ctx.rng.randrange(len(other))]['val'] = 77
+                    other.append({'id': 55, 'val': 5})
+                bases = [t1, t2, other]
+                ref_out = [outcome(lambda b_=b_: copy.deepcopy(b_) + mk()) for b_ in bases]
+                outs = [outcome(lambda b_=b_: copy.deepcopy(b_) + Delta(b, bidirectional=bidir)) for b_ in bases]
+                if outs != ref_out:
+                    ctx.violate(dict(case, channel='bytes'), 'reloaded delta behaves differently on a base: %r vs %r' % (outs, ref_out))
+
+
 def run(ctx, impl_only=False):
     from deepdiff import DeepDiff, Delta
     from deepdiff.serialization import json_dumps, json_loads
@@ -100,6 +156,7 @@ def run(ctx, impl_only=False):
     pairs = list(special_pairs())
     for i in range(n):
         pairs.append(gflat.pair(3) if i % 4 == 0 else g.pair(3))
+    compare_func_cases(ctx)
     tmpdir = tempfile.mkdtemp(prefix='verif_c14_')
     enc_lines, enc_meta, vm_lines, vm_meta = [], [], [], []
     try:
